@@ -14,4 +14,24 @@ theorem raw_literals_tie : GojaModel.Generated.C07.rawLiterals =
     [("arrayObject.expand", [1, 4096, 0, 10, 1, 32]), ("sparseArrayObject.expand", [1024, 1, 64, 3]),
      ("arrayObject._setLengthInt", [0, 1, 1, 16, 2]), ("growCap", [1024, 0, 4, 0])] := by decide
 
+/-- the guard of `checkStdArrayObj` is the conjunction that `Dense.stdGuard` models. -/
+theorem stdGuard_tie : GojaModel.Generated.C07.stdGuardCond =
+    "ok && arr.propValueCount == 0 && arr.length == uint32(len(arr.values)) && uint32(arr.objCount) == arr.length" := by decide
+
+/-- per method: the condition under which the no-holes fast path is taken — `checkStdArrayObj`
+accepted the receiver and (for the methods that run argument coercions between reading `length` and
+choosing the path) `len(values)` still equals the length read before. These are exactly the
+hypotheses (`stdGuard`, `hL`) of the `*_fast_eq_generic` theorems in PropsMethods. -/
+theorem fastPathGuards_tie : GojaModel.Generated.C07.fastPathGuards =
+    [("arrayproto_indexOf", "arr != nil && int64(len(arr.values)) == length"),
+     ("arrayproto_includes", "arr != nil && int64(len(arr.values)) == length"),
+     ("arrayproto_lastIndexOf", "arr != nil && int64(len(arr.values)) == length"),
+     ("arrayproto_fill", "arr != nil && int64(len(arr.values)) == l"),
+     ("arrayproto_copyWithin", "arr != nil && int64(len(arr.values)) == l"),
+     ("arrayproto_with", "src != nil && int64(len(src.values)) == length"),
+     ("arrayproto_toSpliced", "src != nil && int64(len(src.values)) == length"),
+     ("arrayproto_toReversed", "src != nil"),
+     ("arrayproto_splice", "src != nil && int64(len(src.values)) == length && src.extensible && src.lengthProp.writable"),
+     ("arrayproto_reverse", "a != nil")] := by decide
+
 end GojaModel.C07
